@@ -121,6 +121,8 @@ class Interp:
         self.domains = {}          # input variable name -> (z3 var, domain size) for finite-domain character variables
         self._canon_cache = {}
         self.lazy = False
+        self.loop_cut = False
+        self.pow10 = None          # Pow10Model when 10**x of symbolic reals is modelled by uninterpreted functions
         self.footprint = None     # when a dict: records attribute reads/writes {"r": set, "w": set}
         self.no_merge = False
 
@@ -223,6 +225,15 @@ class Interp:
                 exc._symx_snapshot = self.snapshot_hook()
             except Exception:
                 pass
+
+    def define(self, constraint):
+        """assert a fact about freshly created variables (RNG draws etc.).  Inside a merge branch the fact is recorded as
+        (branch guards => fact) so that it survives the branch's solver scope."""
+        if self.in_merge == 0:
+            self.assume(constraint)
+        else:
+            self.solver.add(constraint)
+            self.deferred.append(z3.Implies(z3.And(*[zbool(x) for x in self.merge_guards]), constraint))
 
     def flush_deferred(self):
         if self.in_merge == 0 and self.deferred:
@@ -839,7 +850,8 @@ class Interp:
             elif isinstance(a, FD):
                 pieces.append(mk_fd_apply(self, lambda v: spec % (v,), a))
             elif isinstance(a, Sym):
-                raise Unsupported("formatting a symbolic number")
+                self.notes.add("%-formatting of a symbolic number -> opaque placeholder (message text)")
+                pieces.append("<num>")
             else:
                 try:
                     pieces.append(spec % (a,))
@@ -927,6 +939,9 @@ class Interp:
             return self.str_binop(t, a, b)
         if isinstance(a, (GList, SymDict)) or isinstance(b, (GList, SymDict)):
             return self.glist_binop(t, a, b)
+        if t in (ast.BitAnd, ast.BitOr) and (isinstance(a, Sym) and a.kind == "bool" or isinstance(a, bool)) and (isinstance(b, Sym) and b.kind == "bool" or isinstance(b, bool)) \
+                and (isinstance(a, Sym) or isinstance(b, Sym)):
+            return self.and_(a, b) if t is ast.BitAnd else self.or_(a, b)
         if not is_sym(a) and not is_sym(b):
             if t in CMP and (isinstance(a, (list, tuple)) or isinstance(b, (list, tuple))) and \
                     (self.deep_symbolic(a) or self.deep_symbolic(b)):
@@ -955,6 +970,10 @@ class Interp:
         return self.not_(r) if t is ast.NotEq else r
 
     def glist_binop(self, t, a, b):
+        if t is ast.Sub and isinstance(a, GList) and isinstance(b, (set, frozenset, list, tuple)) and not self.deep_symbolic(b):
+            g = GList([(gd, v) for gd, v in a.items if is_sym(v) or v not in b])
+            g.is_set = getattr(a, "is_set", False)
+            return g
         if t in (ast.Eq, ast.NotEq):
             # only comparison with [] / {} is given meaning
             other = b if isinstance(a, (GList, SymDict)) else a
@@ -1065,8 +1084,49 @@ class Interp:
                 return Sym(z3.fpMul(RNE, x, x), "fp")
         raise Unsupported("fp op %s" % t.__name__)
 
+    def lift(self, v):
+        """Sym of a numeric FD; when all guards speak about one finite-domain input variable the result is written over the
+        per-value atoms If(var == k, 1, 0) (linear: sums over residues then reduce to class counts by linear arithmetic)"""
+        if not isinstance(v, FD):
+            return to_sym(v)
+        try:
+            kinds = {kind_of_py(x) for _, x in v.cases}
+            if None in kinds or kinds == {"bool"}:
+                return to_sym(v)
+            var = None
+            n = None
+            tab = {}
+            for g, x in v.cases:
+                cv = self.canon_vals(g) if not isinstance(g, bool) else None
+                if cv is None:
+                    return to_sym(v)
+                if var is None:
+                    var, n = cv[0], cv[1]
+                elif not var.eq(cv[0]):
+                    return to_sym(v)
+                for k in cv[2]:
+                    tab[k] = pyscalar(x)
+            if var is None or len(tab) != n:
+                return to_sym(v)
+            real = "real" in kinds
+            terms = []
+            for k in range(n):
+                x = tab[k]
+                if x == 0:
+                    continue
+                atom = z3.If(var == k, 1, 0)
+                terms.append((z3val(float(x)) * z3.ToReal(atom)) if real else (z3.IntVal(int(x)) * atom))
+            zero = z3.RealVal(0) if real else z3.IntVal(0)
+            z = z3.Sum(terms) if len(terms) > 1 else (terms[0] if terms else zero)
+            return Sym(z, "real" if real else "int")
+        except Unsupported:
+            return to_sym(v)
+
     def sym_binop(self, t, a, b):
-        a, b = to_sym(a), to_sym(b)
+        if t in (ast.Add, ast.Sub):
+            a, b = self.lift(a), self.lift(b)
+        else:
+            a, b = to_sym(a), to_sym(b)
         if a.kind in ("bv", "fp") or b.kind in ("bv", "fp"):
             return self.fp_binop(t, a, b)
         if t in CMP:
@@ -1102,6 +1162,10 @@ class Interp:
                 return Sym(x - y, "real")
             if t is ast.Mult:
                 return Sym(x * y, "real")
+            if t is ast.Div and self.pow10 is not None:
+                q = self.pow10.reciprocal(self, x, y)
+                if q is not None:
+                    return Sym(q, "real")
             if t is ast.Div:
                 ys = z3.simplify(y)
                 if z3.is_rational_value(ys):
@@ -1329,6 +1393,8 @@ class Interp:
         bound_self = getattr(fn, "__self__", None)
         if isinstance(bound_self, types.ModuleType):
             bound_self = None
+        if bound_self is not None and getattr(bound_self, "_symx_call_native", False):
+            return fn(*args, **kwargs)
         symbolic = any(self.deep_symbolic(a) for a in args) or any(self.deep_symbolic(a) for a in kwargs.values()) \
             or (bound_self is not None and self.deep_symbolic(bound_self))
         if self.interpretable(fn) and (symbolic or getattr(fn, "__name__", "") in self.force_interp):
@@ -1710,6 +1776,10 @@ class Interp:
             del self.pc[npc:]
             self.in_merge -= 1
             self.undo = outer
+            if self.in_merge > 0 and ok is not False and not (isinstance(ok, tuple) and ok[0] == "vacuous"):
+                # facts recorded inside the branch (in guarded form) stay visible in the enclosing scope
+                for d_ in self.deferred[ndef:]:
+                    self.solver.add(d_)
         if ok is False or (isinstance(ok, tuple) and ok[0] == "vacuous"):
             # nothing recorded during an abandoned / always-raising attempt survives (it is re-derived when re-executed)
             del self.side[nside:]
@@ -1868,6 +1938,9 @@ class Interp:
                 break
             n += 1
             if n > self.loop_bound:
+                if self.loop_cut:
+                    self.notes.add("paths needing more than %d iterations of a retry loop are cut (outside the claim)" % self.loop_bound)
+                    raise PathInfeasible()
                 raise Unsupported("loop unwinding bound %d exceeded" % self.loop_bound)
             try:
                 self.exec_block(s.body, fr)
@@ -2140,7 +2213,7 @@ class Interp:
         return None
 
     def subscript(self, c, k):
-        if isinstance(c, tuple) and len(c) == 2 and c[0] == "__vstack__":
+        if isinstance(c, tuple) and len(c) == 2 and isinstance(c[0], str) and c[0] == "__vstack__":
             c = c[1]
         if isinstance(c, SymArray):
             c = c.items
@@ -2242,7 +2315,7 @@ class Interp:
             lo = self.concretize(self.eval(e.slice.lower, fr)) if e.slice.lower else None
             hi = self.concretize(self.eval(e.slice.upper, fr)) if e.slice.upper else None
             st = self.concretize(self.eval(e.slice.step, fr)) if e.slice.step else None
-            if isinstance(c, tuple) and len(c) == 2 and c[0] == "__vstack__":
+            if isinstance(c, tuple) and len(c) == 2 and isinstance(c[0], str) and c[0] == "__vstack__":
                 c = c[1]
             if isinstance(c, SymArray):
                 return c.view(slice(lo, hi, st))      # numpy: basic slicing returns a view
